@@ -12,7 +12,7 @@ from ..engine import Outcome, Verdict, crash_verdicts, infra_problem, shrink_lis
 
 ID = "C02"
 RULE = ("case = (program, collection schedule, knobs) drawn from the run seed; programs are generated allocation-heavy "
-        "workloads (one family per C allocation area), corpus files from tests/ and library test suites, and embedder-op "
+        "workloads (one family per C allocation area; deep-recursion frames verify the contents of what only their stack slots hold; a small mixed-number-representation arithmetic family gets a collection at EVERY allocation), corpus files from tests/ and library test suites, and embedder-op "
         "scripts; the schedule forces sexp_gc before tape-chosen allocations (points, window, every-n, bernoulli, after-growth, and at the k allocations that follow every large allocation such as a re-allocated VM stack). "
         "A case is non-trivial when at least one forced collection fired inside the workload and the workload performed >= 50 "
         "allocations; distinct = distinct event-log hashes (which collections fired where + every step's output hash).")
